@@ -59,19 +59,24 @@ type Case struct {
 
 // Plan describes one check run.
 type Plan struct {
-	Property   string
-	Level      string // exploration | fault_enumeration | model_checking
-	Rule       string
-	Bounds     map[string]any
-	Assume     []string
-	Gen        func(tier string, yield func(Case))
-	Workers    int  // 0 = NumCPU
-	Quiet      bool // discard what the code under test prints to os.Stdout while cases run
-	Procs      int  // >0: shard cases over this many worker processes (isolates process-global state); each runs Workers goroutines (default 1)
-	Exhaustive bool // set false by Gen through Cap()
-	Caps       []string
-	Extra      map[string]any
-	mu         sync.Mutex
+	Property string
+	Level    string // exploration | fault_enumeration | model_checking
+	Rule     string
+	Bounds   map[string]any
+	Assume   []string
+	Gen      func(tier string, yield func(Case))
+	Workers  int  // 0 = NumCPU
+	Quiet    bool // discard what the code under test prints to os.Stdout while cases run
+	Procs    int  // >0: shard cases over this many worker processes (isolates process-global state); each runs Workers goroutines (default 1)
+	// RerunIntersect: a violating case is re-run as usual, but instead of demanding the identical key
+	// set every time, the violations whose key came back in EVERY run are believed (FLAKY only when
+	// none did). For checks whose cases depend on operating-system resource behaviour (C13: which of
+	// several over-allocating inputs kills the worker first decides which siblings still run).
+	RerunIntersect bool
+	Exhaustive     bool // set false by Gen through Cap()
+	Caps           []string
+	Extra          map[string]any
+	mu             sync.Mutex
 }
 
 // Cap records that an internal cap was hit; the run is then not exhaustive.
@@ -247,14 +252,33 @@ func Main(p *Plan, tier string, replayID string, seed int64) {
 					k0 := violKeys(r)
 					ok := true
 					other := ""
+					common := map[string]bool{}
+					for _, v := range r.Violations {
+						common[v.Key] = true
+					}
 					for i := 0; i < 2; i++ {
 						r2 := runCase(c)
 						if k2 := violKeys(r2); k2 != k0 {
 							ok = false
 							other = k2
 						}
+						again := map[string]bool{}
+						for _, v := range r2.Violations {
+							again[v.Key] = true
+						}
+						for k := range common {
+							if !again[k] {
+								delete(common, k)
+							}
+						}
 					}
-					if ok {
+					if !ok && p.RerunIntersect && len(common) > 0 {
+						for _, v := range r.Violations {
+							if common[v.Key] {
+								confirmed = append(confirmed, v)
+							}
+						}
+					} else if ok {
 						confirmed = r.Violations
 					} else {
 						mu.Lock()
